@@ -144,3 +144,35 @@ def _same_const(prog, fi, old, new):
     except Exception:
         return False
     return a == b and type(a) is type(b) and not (a is None and old != "None" and new != "None") and repr(a) != "UNKNOWN"
+
+
+def fold_local(prog, fi, e):
+    """prog.const, extended by locals of ``fi`` that are bound exactly once, by a plain assignment, to an expression that folds
+    (a hoisted entity table, a bound, a format string): the value such a local stands for wherever it is read"""
+    from .model import UNKNOWN
+    v = prog.const(fi.module, e)
+    if v is not UNKNOWN or fi.node is None:
+        return v
+    names = {x.id for x in ast.walk(e) if isinstance(x, ast.Name)}
+    local = {}
+    for nm_ in names:
+        if nm_ in fi.params:
+            continue
+        stores = [x for x in ast.walk(fi.node) if isinstance(x, ast.Name) and x.id == nm_ and isinstance(x.ctx, (ast.Store, ast.Del))]
+        if len(stores) != 1:
+            continue
+        for a in ast.walk(fi.node):
+            if isinstance(a, ast.Assign) and len(a.targets) == 1 and a.targets[0] is stores[0]:
+                # nothing mutates it either (no method call on it, no subscript store)
+                mutated = any((isinstance(c, ast.Call) and isinstance(c.func, ast.Attribute) and isinstance(c.func.value, ast.Name) and c.func.value.id == nm_
+                               and c.func.attr in ("update", "setdefault", "pop", "popitem", "clear", "append", "extend", "insert", "remove", "add", "discard", "sort", "reverse"))
+                              or (isinstance(c, (ast.Subscript,)) and isinstance(c.ctx, (ast.Store, ast.Del)) and isinstance(c.value, ast.Name) and c.value.id == nm_)
+                              or (isinstance(c, ast.AugAssign) and isinstance(c.target, ast.Name) and c.target.id == nm_)
+                              for c in ast.walk(fi.node))
+                if not mutated:
+                    lv = prog.const(fi.module, a.value)
+                    if lv is not UNKNOWN:
+                        local[nm_] = lv
+    if not local:
+        return v
+    return prog.const(fi.module, e, local)
